@@ -88,7 +88,20 @@ func scenarioStart(c *hlib.RunCtx) *hlib.Violation {
 	tele := filepath.Join(c.Dir, "tele")
 	local := filepath.Join(tele, "local")
 	tokenPath := filepath.Join(local, "upload.token")
-	itelemetry.Default = itelemetry.NewDir(tele)
+	// The per-user default directory is a different one from the directory the
+	// applications configure, and may say something else about the mode: only
+	// the configured directory counts.
+	defaultDir := filepath.Join(c.Dir, "userdefault")
+	itelemetry.Default = itelemetry.NewDir(defaultDir)
+	os.MkdirAll(defaultDir, 0777)
+	switch t.Draw(4) {
+	case 1:
+		os.WriteFile(filepath.Join(defaultDir, "mode"), []byte("off 2024-01-01"), 0666)
+	case 2:
+		os.WriteFile(filepath.Join(defaultDir, "mode"), []byte("on 2024-01-01"), 0666)
+	case 3:
+		os.WriteFile(filepath.Join(defaultDir, "mode"), []byte("local"), 0666)
+	}
 
 	mode := []string{"on", "local", "off"}[t.Draw(3)]
 	modeKind := t.Biased(3, 3, 4) // 0 written normally, 1 missing file (= local), 2 garbage (= whatever it parses to)
